@@ -46,7 +46,16 @@ class Escape:
         self.ctx = ctx
         self.sites = {}       # q -> [(handled frozenset, 'fail', Failure) | (handled, 'call', callee qname, node)]
         for q, fn in ctx.model.funcs.items():
-            self.sites[q] = self._scan(fn)
+            saved = dict(pat.MODULE_CONSTS)
+            pat.MODULE_CONSTS.clear()
+            pat.MODULE_CONSTS.update(pat.module_consts(ctx.model.modules.get(fn.mod)))
+            for prm in fn.params:                       # a parameter shadows a module constant of the same name
+                pat.MODULE_CONSTS.pop(prm, None)
+            try:
+                self.sites[q] = self._scan(fn)
+            finally:
+                pat.MODULE_CONSTS.clear()
+                pat.MODULE_CONSTS.update(saved)
 
     def _scan(self, fn):
         inf = self.ctx.typer.of(fn)
@@ -83,6 +92,26 @@ class Escape:
                 if isinstance(st, ast.Assert):
                     sites.append((handled, "fail", Failure(q, st, "AssertionError", "assert", st.test)))
                     nonzero = nonzero | _positive_facts(st.test)
+                if isinstance(st, ast.Expr) and isinstance(st.value, ast.Call):
+                    # `_check_at_least(npts, 1)`: the asserts of a resolved validating helper hold for the arguments
+                    helper_tgs = inf.targets(st.value, ("call",))
+                    for t in (helper_tgs if len(helper_tgs) == 1 else []):
+                        ps = [a.arg for a in t.node.args.posonlyargs + t.node.args.args]
+                        if t.kind in ("method", "getter", "setter", "class") and isinstance(st.value.func, ast.Attribute) and ps:
+                            ps = ps[1:]
+                        amap = dict(zip(ps, st.value.args))
+                        amap.update({k.arg: k.value for k in st.value.keywords if k.arg in ps})
+                        for hst in t.node.body:
+                            if isinstance(hst, ast.Expr) and isinstance(hst.value, ast.Constant):
+                                continue
+                            if not isinstance(hst, ast.Assert):
+                                break
+                            class Sub(ast.NodeTransformer):
+                                def visit_Name(self, n):
+                                    return amap.get(n.id, n) if isinstance(n.ctx, ast.Load) else n
+                            import copy as _copy
+                            test2 = Sub().visit(_copy.deepcopy(hst.test))
+                            nonzero = nonzero | _positive_facts(test2)
                 # a local bound to a non-zero expression is non-zero until it is rebound
                 if isinstance(st, (ast.Assign, ast.AnnAssign, ast.AugAssign)):
                     tgts = st.targets if isinstance(st, ast.Assign) else [st.target]
